@@ -1398,6 +1398,7 @@ func runC09(c *lib.Ctx) error {
 	c.Res.Notes = append(c.Res.Notes, fmt.Sprintf("real-time (server-paced) requests: %d, handler run times ms %v", len(rtElapsed), rtElapsed))
 	nMPD := env.mpdSignalling(c)
 	nMPD += env.evalInterrupted(c, <-interrupted)
+	nMPD += env.availabilityEdge(c, rng)
 	c.Res.Evaluations = len(ins) + nMPD
 	c.Res.ModelCases = len(ins)
 	c.Res.DistinctNontrivial = len(distinct)
@@ -1479,6 +1480,22 @@ func replayC09(c *lib.Ctx, env *l1env) error {
 		return err
 	}
 	var o c09obs
+	if in.Kind == "edge" {
+		whole := env.ls.GetRaw(in.WholeURL)
+		fmt.Printf("replay C09 (edge): %s -> %d %s\n", in.WholeURL, whole.Status, strings.TrimSpace(string(whole.Body)))
+		a := env.assets[in.Asset]
+		if a == nil {
+			return fmt.Errorf("unknown asset %s", in.Asset)
+		}
+		adv := in.StartS*1000 + a.Ref().LoopE(in.Seg)*1000/a.Ref().Timescale - atoMSExact(in.Ato)
+		if in.NowMS >= adv && whole.Status != 200 {
+			c.Fail("replay", "refused-when-available", fmt.Sprintf("whole-segment mode answers %d at/after the advertised availability millisecond %d", whole.Status, adv), in)
+		}
+		if in.NowMS < adv && whole.Status != 425 {
+			c.Fail("replay", "not-refused-early", fmt.Sprintf("whole-segment mode answers %d before the advertised availability millisecond %d", whole.Status, adv), in)
+		}
+		return nil
+	}
 	if in.Kind == "mpd" {
 		env.checkMPD(c, "replay", in)
 		fmt.Printf("replay C09 (mpd): %s: %d failure(s)\n", in.URL, len(c.Res.OracleFailures))
@@ -1792,4 +1809,75 @@ func (e *l1env) evalInterrupted(c *lib.Ctx, rs []intrRes) int {
 		}
 	}
 	return len(rs)
+}
+
+// ---------------------------------------------------------------- the advertised availability millisecond (oracle only)
+
+// availabilityEdge asks, for offsets that are not binary fractions and many segment numbers, at exactly
+// the advertised availability millisecond and one millisecond before it, in whole-segment mode (GET)
+// and in chunked mode. The chunked request is made by a client that is already gone (ended request
+// context): the availability decision is taken, no chunk is waited for - any answer but 425 means
+// "available".
+func (e *l1env) availabilityEdge(c *lib.Ctx, rng *rand.Rand) int {
+	n := 0
+	nSeg := 40
+	if c.Thorough() {
+		nSeg = 400
+	}
+	gone, cancel := context.WithCancel(context.Background())
+	cancel()
+	for _, x := range []struct{ asset, rep string }{{"testpic_2s", "V300"}, {"testpic_2s", "A48"}, {"WAVE/vectors/cfhd_sets/14.985_29.97_59.94/t1/2022-10-17", "1"}, {"testpic_8s", "V300"}} {
+		a := e.assets[x.asset]
+		if a == nil || a.Rep(x.rep) == nil || atomic.LoadInt32(&hangs) >= maxHangs {
+			continue
+		}
+		ref := a.Ref()
+		for _, ato := range []string{"0.1", "0.3", "0.7", "1.1", "1.3", "1.9"} {
+			for k := 0; k < nSeg; k++ {
+				seg := 10 + rng.Int63n(400000000)
+				if k%4 == 0 {
+					seg = 10 + rng.Int63n(2000)
+				}
+				startS := []int64{0, 0, 0, 1600000000}[k%4]
+				adv := startS*1000 + ref.LoopE(seg)*1000/ref.Timescale - atoMSExact(ato)
+				for _, off := range []int64{0, -1} {
+					in := c09in{Kind: "edge", Asset: x.asset, Rep: x.rep, Ato: ato, Chunkdur: "0.5", Mode: "number", Seg: seg, StartS: startS, NowMS: adv + off, Why: fmt.Sprintf("adv%+d", off)}
+					in.fillURLs(a, a.Rep(x.rep), ref)
+					id := fmt.Sprintf("edge%d", n)
+					n++
+					c.Count("availability-edge:" + in.Why)
+					whole := e.ls.GetRaw(in.WholeURL)
+					req := httptest.NewRequest("GET", in.URL, nil).WithContext(gone)
+					chunked, to := serveWatched(e.ls.Srv.LiveRouter, req, lib.NewRecWriter(), nil, watchdogMarginMS*time.Millisecond)
+					bad := ""
+					switch {
+					case whole.Panic != "" || chunked.Panic != "":
+						bad = "panic: " + whole.Panic + chunked.Panic
+					case to:
+						bad = "the chunked request of a client that is gone did not return"
+					case off == 0 && whole.Status != 200:
+						bad = fmt.Sprintf("whole-segment mode answers %d (%s) at the advertised availability millisecond", whole.Status, strings.TrimSpace(string(whole.Body)))
+					case off == 0 && (chunked.Status == 425 || chunked.Status == 400 || chunked.Status == 404 || chunked.Status == 410):
+						bad = fmt.Sprintf("chunked mode answers %d (%s) at the advertised availability millisecond", chunked.Status, strings.TrimSpace(string(chunked.Body)))
+					case off < 0 && whole.Status != 425:
+						bad = fmt.Sprintf("whole-segment mode answers %d one millisecond before the advertised availability time", whole.Status)
+					case off < 0 && chunked.Status != 425:
+						bad = fmt.Sprintf("chunked mode answers %d one millisecond before the advertised availability time", chunked.Status)
+					}
+					if bad != "" {
+						c.Res.Inputs[id] = in
+						key := "refused-when-available"
+						if off < 0 {
+							key = "not-refused-early"
+						}
+						if strings.HasPrefix(bad, "panic") || to {
+							key = "edge-error"
+						}
+						c.Fail(id, key, fmt.Sprintf("advertised availability %d ms (offset %s s): %s", adv, ato, bad), in)
+					}
+				}
+			}
+		}
+	}
+	return n
 }
